@@ -115,7 +115,9 @@ theorem notifyModule_snd (cfg : ModuleCfg) (g : GroupRec) (st : Status) (now : I
     · by_cases h3 : l.isSome ∧ cfg.sendOnce = true
       · simp only [h1, h2, h3, and_self, if_true, if_false]
       · simp only [h1, h2, h3, if_false]
-        split <;> rfl
+        cases l with
+        | none => simp
+        | some t => by_cases hd : now - t > cfg.sendInterval * 1000 <;> simp [hd]
 
 theorem notifyModule_lookup_self (cfg : ModuleCfg) (g : GroupRec) (st : Status) (now : Int)
     (start : Option Int) (id : Option Nat) :
@@ -130,9 +132,10 @@ theorem notifyModule_lookup_self (cfg : ModuleCfg) (g : GroupRec) (st : Status) 
     · by_cases h3 : l.isSome ∧ cfg.sendOnce = true
       · simp only [h1, h2, h3, and_self, if_true, if_false, hl]
       · simp only [h1, h2, h3, if_false]
-        split
-        · simp only [lookupT_setT_self]
-        · exact hl
+        cases l with
+        | none => simp [lookupT_setT_self]
+        | some t =>
+          by_cases hd : now - t > cfg.sendInterval * 1000 <;> simp [hd, hl, lookupT_setT_self]
 
 theorem notifyModule_lookup_ne (cfg : ModuleCfg) (g : GroupRec) (st : Status) (now : Int)
     (start : Option Int) (id : Option Nat) (m : String) (hm : cfg.name ≠ m) :
@@ -146,9 +149,10 @@ theorem notifyModule_lookup_ne (cfg : ModuleCfg) (g : GroupRec) (st : Status) (n
     · by_cases h3 : l.isSome ∧ cfg.sendOnce = true
       · simp only [h1, h2, h3, and_self, if_true, if_false]
       · simp only [h1, h2, h3, if_false]
-        split
-        · simp only [lookupT_setT_ne hm]
-        · rfl
+        cases l with
+        | none => simp [lookupT_setT_ne hm]
+        | some t =>
+          by_cases hd : now - t > cfg.sendInterval * 1000 <;> simp [hd, lookupT_setT_ne hm]
 
 theorem notifyModule_id (cfg : ModuleCfg) (g : GroupRec) (st : Status) (now : Int)
     (start : Option Int) (id : Option Nat) :
@@ -163,7 +167,81 @@ theorem notifyModule_id (cfg : ModuleCfg) (g : GroupRec) (st : Status) (now : In
     · by_cases h3 : l.isSome ∧ cfg.sendOnce = true
       · simp only [h1, h2, h3, and_self, if_true, if_false]
       · simp only [h1, h2, h3, if_false]
-        split <;> exact ⟨rfl, rfl⟩
+        cases l with
+        | none => simp
+        | some t => by_cases hd : now - t > cfg.sendInterval * 1000 <;> simp [hd]
+
+section nmLeqs
+variable {cfg : ModuleCfg} {l : Option Int} {st : Status} {now : Int}
+  {start : Option Int} {id : Option Nat}
+
+theorem nmL_eq_close (h1 : start.isSome ∧ st = .ok ∧ cfg.sendClose = true) :
+    nmL cfg l st now start id =
+      (none, some { module := cfg.name, status := st, id, start, close := true }) := by
+  unfold nmL
+  simp only [h1, and_self, if_true]
+
+theorem nmL_eq_thr (h1 : ¬ (start.isSome ∧ st = .ok ∧ cfg.sendClose = true))
+    (h2 : (st.toNat : Int) < cfg.threshold) : nmL cfg l st now start id = (l, none) := by
+  unfold nmL
+  simp only [h1, h2, if_true, if_false]
+
+theorem nmL_eq_once (h1 : ¬ (start.isSome ∧ st = .ok ∧ cfg.sendClose = true))
+    (h2 : ¬ (st.toNat : Int) < cfg.threshold) (h3 : l.isSome ∧ cfg.sendOnce = true) :
+    nmL cfg l st now start id = (l, none) := by
+  unfold nmL
+  simp only [h1, h2, h3, and_self, if_true, if_false]
+
+theorem nmL_eq_due (h1 : ¬ (start.isSome ∧ st = .ok ∧ cfg.sendClose = true))
+    (h2 : ¬ (st.toNat : Int) < cfg.threshold) (h3 : ¬ (l.isSome ∧ cfg.sendOnce = true))
+    (hd : ∀ t, l = some t → now - t > cfg.sendInterval * 1000) :
+    nmL cfg l st now start id =
+      (some now, some { module := cfg.name, status := st, id, start, close := false }) := by
+  unfold nmL
+  simp only [h1, h2, h3, if_false]
+  cases l with
+  | none => simp
+  | some t => simp [hd t rfl]
+
+theorem nmL_eq_notdue (h1 : ¬ (start.isSome ∧ st = .ok ∧ cfg.sendClose = true))
+    (h2 : ¬ (st.toNat : Int) < cfg.threshold) (h3 : ¬ (l.isSome ∧ cfg.sendOnce = true))
+    (t : Int) (hl : l = some t) (hd : ¬ now - t > cfg.sendInterval * 1000) :
+    nmL cfg l st now start id = (l, none) := by
+  unfold nmL
+  subst hl
+  simp only [h1, h2, h3, if_false]
+  simp [hd]
+
+/-- the five cases of `nmL` -/
+theorem nmL_cases (cfg : ModuleCfg) (l : Option Int) (st : Status) (now : Int)
+    (start : Option Int) (id : Option Nat) :
+    (start.isSome ∧ st = .ok ∧ cfg.sendClose = true ∧ nmL cfg l st now start id =
+        (none, some { module := cfg.name, status := st, id, start, close := true })) ∨
+    (¬ (start.isSome ∧ st = .ok ∧ cfg.sendClose = true) ∧ nmL cfg l st now start id = (l, none)) ∨
+    (¬ (start.isSome ∧ st = .ok ∧ cfg.sendClose = true) ∧ cfg.threshold ≤ (st.toNat : Int) ∧
+      ¬ (l.isSome ∧ cfg.sendOnce = true) ∧ (∀ t, l = some t → now - t > cfg.sendInterval * 1000) ∧
+      nmL cfg l st now start id =
+        (some now, some { module := cfg.name, status := st, id, start, close := false })) := by
+  by_cases h1 : start.isSome ∧ st = .ok ∧ cfg.sendClose = true
+  · exact Or.inl ⟨h1.1, h1.2.1, h1.2.2, nmL_eq_close h1⟩
+  · by_cases h2 : (st.toNat : Int) < cfg.threshold
+    · exact Or.inr (Or.inl ⟨h1, nmL_eq_thr h1 h2⟩)
+    · by_cases h3 : l.isSome ∧ cfg.sendOnce = true
+      · exact Or.inr (Or.inl ⟨h1, nmL_eq_once h1 h2 h3⟩)
+      · by_cases hd : ∀ t, l = some t → now - t > cfg.sendInterval * 1000
+        · exact Or.inr (Or.inr ⟨h1, by omega, h3, hd, nmL_eq_due h1 h2 h3 hd⟩)
+        · have : ∃ t, l = some t ∧ ¬ now - t > cfg.sendInterval * 1000 := by
+            cases l with
+            | none => exact absurd (fun t ht => by cases ht) hd
+            | some t =>
+              refine ⟨t, rfl, fun h => hd ?_⟩
+              intro t' ht'
+              cases ht'
+              exact h
+          obtain ⟨t, hl, hnd⟩ := this
+          exact Or.inr (Or.inl ⟨h1, nmL_eq_notdue h1 h2 h3 t hl hnd⟩)
+
+end nmLeqs
 
 /-- what a notification produced by `nmL` looks like -/
 theorem nmL_some {cfg : ModuleCfg} {l : Option Int} {st : Status} {now : Int}
@@ -176,52 +254,800 @@ theorem nmL_some {cfg : ModuleCfg} {l : Option Int} {st : Status} {now : Int}
         cfg.threshold ≤ (st.toNat : Int) ∧ ¬ (l.isSome ∧ cfg.sendOnce = true) ∧
         (∀ t, l = some t → now - t > cfg.sendInterval * 1000) ∧
         (nmL cfg l st now start id).1 = some now) := by
-  unfold nmL at h ⊢
-  split at h
-  · rename_i hc
+  rcases nmL_cases cfg l st now start id with ⟨h1, h2, h3, e⟩ | ⟨h1, e⟩ | ⟨h1, h2, h3, h4, e⟩
+  · rw [e] at h ⊢
     simp only [Option.some.injEq] at h
     subst h
-    simp [hc]
-  · rename_i hc
-    split at h
-    · simp at h
-    · rename_i hthr
-      split at h
-      · simp at h
-      · rename_i honce
-        split at h
-        · rename_i hdue
-          simp only [Option.some.injEq] at h
-          subst h
-          simp only [hc, hthr, honce, hdue, if_true, if_false]
-          refine ⟨rfl, rfl, rfl, rfl, by simp, fun _ => ⟨by simpa using hc, by omega, honce, ?_, rfl⟩⟩
-          intro t ht
-          subst ht
-          simpa using hdue
-        · simp at h
+    simp [h1, h2, h3]
+  · rw [e] at h
+    simp at h
+  · rw [e] at h ⊢
+    simp only [Option.some.injEq] at h
+    subst h
+    refine ⟨rfl, rfl, rfl, rfl, by simp, fun _ => ⟨h1, h2, h3, h4, rfl⟩⟩
 
 /-- no notification: the entry is unchanged -/
 theorem nmL_none {cfg : ModuleCfg} {l : Option Int} {st : Status} {now : Int}
     {start : Option Int} {id : Option Nat}
     (h : (nmL cfg l st now start id).2 = none) : (nmL cfg l st now start id).1 = l := by
-  unfold nmL at h ⊢
-  repeat' split
-  all_goals first | rfl | simp_all
+  rcases nmL_cases cfg l st now start id with ⟨h1, h2, h3, e⟩ | ⟨h1, e⟩ | ⟨h1, h2, h3, h4, e⟩
+  · rw [e] at h
+    simp at h
+  · rw [e]
+  · rw [e] at h
+    simp at h
 
 /-- the announcement: nothing recorded for the module, status bad and at threshold -/
 theorem nmL_announce (cfg : ModuleCfg) (st : Status) (now : Int) (start : Option Int)
     (id : Option Nat) (hst : st ≠ .ok) (hthr : cfg.threshold ≤ (st.toNat : Int)) :
     ∃ n, (nmL cfg none st now start id).2 = some n ∧ n.close = false := by
-  unfold nmL
   have h1 : ¬ (start.isSome ∧ st = .ok ∧ cfg.sendClose = true) := fun h => hst h.2.1
   have h2 : ¬ ((st.toNat : Int) < cfg.threshold) := by omega
-  simp [h1, h2]
+  rw [nmL_eq_due h1 h2 (by simp) (by simp)]
+  exact ⟨_, rfl, rfl⟩
 
 /-- the close: incident open, status OK, module configured for closes -/
 theorem nmL_close (cfg : ModuleCfg) (l : Option Int) (now : Int) (start : Option Int)
     (id : Option Nat) (hs : start.isSome) (hc : cfg.sendClose = true) :
     ∃ n, (nmL cfg l .ok now start id).2 = some n ∧ n.close = true ∧ n.status = .ok := by
-  unfold nmL
-  simp [hs, hc]
+  rw [nmL_eq_close ⟨hs, rfl, hc⟩]
+  exact ⟨_, rfl, rfl, rfl⟩
+
+/-! ### The module loop -/
+
+theorem modulesLoop_nil (st : Status) (now : Int) (acc : String → Bool) (start : Option Int)
+    (id : Option Nat) (g : GroupRec) : modulesLoop st now acc start id [] g = (g, []) := rfl
+
+theorem modulesLoop_cons (st : Status) (now : Int) (acc : String → Bool) (start : Option Int)
+    (id : Option Nat) (cfg : ModuleCfg) (rest : List ModuleCfg) (g : GroupRec) :
+    modulesLoop st now acc start id (cfg :: rest) g =
+      if acc cfg.name = true then
+        ((modulesLoop st now acc start id rest (notifyModule cfg g st now start id).1).1,
+         (notifyModule cfg g st now start id).2.toList ++
+           (modulesLoop st now acc start id rest (notifyModule cfg g st now start id).1).2)
+      else modulesLoop st now acc start id rest g := rfl
+
+/-- the loop never touches `id` / `start` -/
+theorem modulesLoop_id (st : Status) (now : Int) (acc : String → Bool) (start : Option Int)
+    (id : Option Nat) (cfgs : List ModuleCfg) (g : GroupRec) :
+    (modulesLoop st now acc start id cfgs g).1.id = g.id ∧
+    (modulesLoop st now acc start id cfgs g).1.start = g.start := by
+  induction cfgs generalizing g with
+  | nil => exact ⟨rfl, rfl⟩
+  | cons cfg rest ih =>
+    rw [modulesLoop_cons]
+    split
+    · have h1 := ih (notifyModule cfg g st now start id).1
+      have h2 := notifyModule_id cfg g st now start id
+      exact ⟨h1.1.trans h2.1, h1.2.trans h2.2⟩
+    · exact ih g
+
+/-- every notification of the loop comes from an accepting module's `notifyModule` -/
+theorem modulesLoop_mem (st : Status) (now : Int) (acc : String → Bool) (start : Option Int)
+    (id : Option Nat) (cfgs : List ModuleCfg) (g : GroupRec) (n : Notification)
+    (h : n ∈ (modulesLoop st now acc start id cfgs g).2) :
+    ∃ cfg ∈ cfgs, acc cfg.name = true ∧ ∃ l, (nmL cfg l st now start id).2 = some n := by
+  induction cfgs generalizing g with
+  | nil => simp [modulesLoop_nil] at h
+  | cons cfg rest ih =>
+    rw [modulesLoop_cons] at h
+    split at h
+    · rename_i hacc
+      simp only [List.mem_append, Option.mem_toList] at h
+      rcases h with h | h
+      · rw [notifyModule_snd] at h
+        exact ⟨cfg, List.mem_cons_self, hacc, _, h⟩
+      · obtain ⟨c, hc, r⟩ := ih _ h
+        exact ⟨c, List.mem_cons_of_mem _ hc, r⟩
+    · obtain ⟨c, hc, r⟩ := ih _ h
+      exact ⟨c, List.mem_cons_of_mem _ hc, r⟩
+
+theorem filter_toList_self (m : String) (o : Option Notification)
+    (h : ∀ n, o = some n → n.module = m) :
+    o.toList.filter (fun n => n.module = m) = o.toList := by
+  cases o with
+  | none => rfl
+  | some n => simp [h n rfl]
+
+theorem filter_toList_ne (m : String) (o : Option Notification)
+    (h : ∀ n, o = some n → n.module ≠ m) :
+    o.toList.filter (fun n => n.module = m) = [] := by
+  cases o with
+  | none => rfl
+  | some n => simp [h n rfl]
+
+/-- a module that is not configured gets nothing and its entry is untouched -/
+theorem modulesLoop_absent (st : Status) (now : Int) (acc : String → Bool) (start : Option Int)
+    (id : Option Nat) (cfgs : List ModuleCfg) (g : GroupRec) (m : String)
+    (hm : m ∉ cfgs.map (·.name)) :
+    (modulesLoop st now acc start id cfgs g).2.filter (fun n => n.module = m) = [] ∧
+    lookupT m (modulesLoop st now acc start id cfgs g).1.lastNotify = lookupT m g.lastNotify := by
+  induction cfgs generalizing g with
+  | nil => exact ⟨rfl, rfl⟩
+  | cons cfg rest ih =>
+    simp only [List.map_cons, List.mem_cons, not_or] at hm
+    obtain ⟨hne, hrest⟩ := hm
+    rw [modulesLoop_cons]
+    split
+    · obtain ⟨h1, h2⟩ := ih (notifyModule cfg g st now start id).1 hrest
+      refine ⟨?_, ?_⟩
+      · rw [List.filter_append, h1, List.append_nil]
+        apply filter_toList_ne
+        intro n hn
+        rw [notifyModule_snd] at hn
+        rw [(nmL_some hn).1]
+        exact fun h => hne h.symm
+      · rw [h2]
+        exact notifyModule_lookup_ne cfg g st now start id m (fun h => hne h.symm)
+    · exact ih g hrest
+
+/-- with distinct module names, what module `cfg.name` is sent and what is recorded for it is
+    `notifyModule cfg` on the module's own entry -/
+theorem modulesLoop_module (st : Status) (now : Int) (acc : String → Bool) (start : Option Int)
+    (id : Option Nat) (cfgs : List ModuleCfg) (hn : NamesNodup cfgs) (g : GroupRec)
+    (cfg : ModuleCfg) (hc : cfg ∈ cfgs) :
+    (modulesLoop st now acc start id cfgs g).2.filter (fun n => n.module = cfg.name) =
+      (if acc cfg.name = true then
+        (nmL cfg (lookupT cfg.name g.lastNotify) st now start id).2.toList else []) ∧
+    lookupT cfg.name (modulesLoop st now acc start id cfgs g).1.lastNotify =
+      (if acc cfg.name = true then (nmL cfg (lookupT cfg.name g.lastNotify) st now start id).1
+       else lookupT cfg.name g.lastNotify) := by
+  induction cfgs generalizing g with
+  | nil => cases hc
+  | cons c rest ih =>
+    unfold NamesNodup at hn ih
+    simp only [List.map_cons, List.nodup_cons] at hn
+    obtain ⟨hnot, hnd⟩ := hn
+    by_cases heq : cfg = c
+    · subst heq
+      rw [modulesLoop_cons]
+      split
+      · obtain ⟨h1, h2⟩ := modulesLoop_absent st now acc start id rest
+          (notifyModule cfg g st now start id).1 cfg.name hnot
+        refine ⟨?_, ?_⟩
+        · rw [List.filter_append, h1, List.append_nil, notifyModule_snd]
+          apply filter_toList_self
+          intro n hn
+          exact (nmL_some hn).1
+        · rw [h2, notifyModule_lookup_self]
+      · exact modulesLoop_absent st now acc start id rest g cfg.name hnot
+    · have hc' : cfg ∈ rest := by
+        cases hc with
+        | head => exact absurd rfl heq
+        | tail _ h => exact h
+      have hname : c.name ≠ cfg.name := by
+        intro h
+        apply hnot
+        rw [h]
+        exact List.mem_map_of_mem hc'
+      rw [modulesLoop_cons]
+      split
+      · obtain ⟨h1, h2⟩ := ih hnd (notifyModule c g st now start id).1 hc'
+        rw [notifyModule_lookup_ne c g st now start id cfg.name hname] at h1 h2
+        refine ⟨?_, h2⟩
+        rw [List.filter_append, h1]
+        rw [filter_toList_ne]
+        · rfl
+        · intro n hn
+          rw [notifyModule_snd] at hn
+          rw [(nmL_some hn).1]
+          exact hname
+      · exact ih hnd g hc'
+
+/-! ### One evaluation -/
+
+/-- the record after the incident-opening logic, before the module loop -/
+def pre (g : GroupRec) (e : Ev) : GroupRec :=
+  if g.start.isNone ∧ e.status > .ok
+  then { id := some e.freshId, start := some e.now, lastNotify := [] } else g
+
+theorem stepG_snd (cfgs : List ModuleCfg) (g : GroupRec) (e : Ev) :
+    (stepG cfgs g e).2 =
+      (modulesLoop e.status e.now e.acc (pre g e).start (pre g e).id cfgs (pre g e)).2 := rfl
+
+theorem stepG_fst (cfgs : List ModuleCfg) (g : GroupRec) (e : Ev) :
+    (stepG cfgs g e).1 =
+      if e.status = .ok then
+        { (modulesLoop e.status e.now e.acc (pre g e).start (pre g e).id cfgs (pre g e)).1 with
+          id := none, start := none }
+      else (modulesLoop e.status e.now e.acc (pre g e).start (pre g e).id cfgs (pre g e)).1 := rfl
+
+theorem stepG_lastNotify (cfgs : List ModuleCfg) (g : GroupRec) (e : Ev) :
+    (stepG cfgs g e).1.lastNotify =
+      (modulesLoop e.status e.now e.acc (pre g e).start (pre g e).id cfgs (pre g e)).1.lastNotify := by
+  rw [stepG_fst]
+  split <;> rfl
+
+theorem stepG_id_ok (cfgs : List ModuleCfg) (g : GroupRec) (e : Ev) (h : e.status = .ok) :
+    (stepG cfgs g e).1.id = none ∧ (stepG cfgs g e).1.start = none := by
+  rw [stepG_fst, if_pos h]
+  exact ⟨rfl, rfl⟩
+
+theorem stepG_id_not_ok (cfgs : List ModuleCfg) (g : GroupRec) (e : Ev) (h : e.status ≠ .ok) :
+    (stepG cfgs g e).1.id = (pre g e).id ∧ (stepG cfgs g e).1.start = (pre g e).start := by
+  rw [stepG_fst, if_neg h]
+  exact modulesLoop_id _ _ _ _ _ _ _
+
+theorem pre_of_isSome (g : GroupRec) (e : Ev) (h : g.start.isSome) : pre g e = g := by
+  unfold pre
+  rw [if_neg]
+  intro h'
+  cases hs : g.start <;> simp [hs] at h h'
+
+theorem pre_of_ok (g : GroupRec) (e : Ev) (h : e.status = .ok) : pre g e = g := by
+  unfold pre
+  rw [if_neg]
+  exact fun h' => not_gt_ok_of_eq_ok h h'.2
+
+theorem pre_start_isSome (g : GroupRec) (e : Ev) (h : e.status > .ok) :
+    (pre g e).start.isSome := by
+  unfold pre
+  split
+  · rfl
+  · rename_i hc
+    cases hs : g.start with
+    | none => exact absurd ⟨by simp [hs], h⟩ hc
+    | some t => rfl
+
+theorem pre_of_isNone (g : GroupRec) (e : Ev) (hs : g.start = none) (h : e.status > .ok) :
+    pre g e = { id := some e.freshId, start := some e.now, lastNotify := [] } := by
+  unfold pre
+  rw [if_pos]
+  exact ⟨by simp [hs], h⟩
+
+/-- everything emitted at one evaluation -/
+theorem stepG_mem (cfgs : List ModuleCfg) (g : GroupRec) (e : Ev) (n : Notification)
+    (h : n ∈ (stepG cfgs g e).2) :
+    n.id = (pre g e).id ∧ n.start = (pre g e).start ∧ n.status = e.status ∧
+    ∃ cfg ∈ cfgs, cfg.name = n.module ∧ e.acc cfg.name = true ∧
+      (n.close = true → (pre g e).start.isSome ∧ e.status = .ok ∧ cfg.sendClose = true) ∧
+      (n.close = false → cfg.threshold ≤ (e.status.toNat : Int)) := by
+  rw [stepG_snd] at h
+  obtain ⟨cfg, hc, hacc, l, hl⟩ := modulesLoop_mem _ _ _ _ _ _ _ _ h
+  obtain ⟨h1, h2, h3, h4, h5, h6⟩ := nmL_some hl
+  refine ⟨h3, h4, h2, cfg, hc, h1.symm, hacc, ?_, ?_⟩
+  · intro hcl
+    obtain ⟨a, b, c, _⟩ := h5 hcl
+    exact ⟨a, b, c⟩
+  · intro hcl
+    exact (h6 hcl).2.1
+
+/-- one evaluation seen from one module (distinct names) -/
+theorem stepG_module (cfgs : List ModuleCfg) (hn : NamesNodup cfgs) (g : GroupRec) (e : Ev)
+    (cfg : ModuleCfg) (hc : cfg ∈ cfgs) :
+    (stepG cfgs g e).2.filter (fun n => n.module = cfg.name) =
+      (if e.acc cfg.name = true then
+        (nmL cfg (lookupT cfg.name (pre g e).lastNotify) e.status e.now (pre g e).start
+          (pre g e).id).2.toList else []) ∧
+    lookupT cfg.name (stepG cfgs g e).1.lastNotify =
+      (if e.acc cfg.name = true then
+        (nmL cfg (lookupT cfg.name (pre g e).lastNotify) e.status e.now (pre g e).start
+          (pre g e).id).1
+       else lookupT cfg.name (pre g e).lastNotify) := by
+  rw [stepG_snd, stepG_lastNotify]
+  exact modulesLoop_module _ _ _ _ _ cfgs hn (pre g e) cfg hc
+
+/-- membership form of `stepG_module` -/
+theorem stepG_module_mem (cfgs : List ModuleCfg) (hn : NamesNodup cfgs) (g : GroupRec) (e : Ev)
+    (cfg : ModuleCfg) (hc : cfg ∈ cfgs) (n : Notification) :
+    (n ∈ (stepG cfgs g e).2 ∧ n.module = cfg.name) ↔
+      (e.acc cfg.name = true ∧
+        (nmL cfg (lookupT cfg.name (pre g e).lastNotify) e.status e.now (pre g e).start
+          (pre g e).id).2 = some n) := by
+  have h := (stepG_module cfgs hn g e cfg hc).1
+  have hm : (n ∈ (stepG cfgs g e).2 ∧ n.module = cfg.name) ↔
+      n ∈ (stepG cfgs g e).2.filter (fun n => n.module = cfg.name) := by
+    simp [List.mem_filter]
+  rw [hm, h]
+  split
+  · rename_i hacc
+    simp [hacc]
+  · rename_i hacc
+    simp [hacc]
+
+/-! ### Runs -/
+
+/-- the record after the first `i` evaluations -/
+def recAt (cfgs : List ModuleCfg) (g : GroupRec) (evs : List Ev) (i : Nat) : GroupRec :=
+  (evs.take i).foldl (fun g e => (stepG cfgs g e).1) g
+
+theorem recAt_zero (cfgs : List ModuleCfg) (g : GroupRec) (evs : List Ev) :
+    recAt cfgs g evs 0 = g := by
+  simp [recAt]
+
+theorem recAt_succ (cfgs : List ModuleCfg) (g : GroupRec) (evs : List Ev) (i : Nat) (e : Ev)
+    (h : evs[i]? = some e) :
+    recAt cfgs g evs (i + 1) = (stepG cfgs (recAt cfgs g evs i) e).1 := by
+  simp [recAt, List.take_add_one, h, List.foldl_append]
+
+theorem recAt_succ_none (cfgs : List ModuleCfg) (g : GroupRec) (evs : List Ev) (i : Nat)
+    (h : evs[i]? = none) : recAt cfgs g evs (i + 1) = recAt cfgs g evs i := by
+  simp [recAt, List.take_add_one, h]
+
+theorem runG_cons (cfgs : List ModuleCfg) (g : GroupRec) (e : Ev) (es : List Ev) :
+    runG cfgs g (e :: es) = (stepG cfgs g e).2 :: runG cfgs (stepG cfgs g e).1 es := rfl
+
+theorem runG_getElem? (cfgs : List ModuleCfg) (g : GroupRec) (evs : List Ev) (i : Nat) :
+    (runG cfgs g evs)[i]? = evs[i]?.map fun e => (stepG cfgs (recAt cfgs g evs i) e).2 := by
+  induction evs generalizing g i with
+  | nil => simp [runG]
+  | cons e es ih =>
+    rw [runG_cons]
+    cases i with
+    | zero => simp [recAt_zero]
+    | succ i =>
+      simp only [List.getElem?_cons_succ]
+      rw [ih]
+      simp [recAt]
+
+/-- the record before evaluation `i` of a history started from the fresh record -/
+abbrev R (cfgs : List ModuleCfg) (evs : List Ev) (i : Nat) : GroupRec :=
+  recAt cfgs GroupRec.fresh evs i
+
+theorem notesAt_eq (cfgs : List ModuleCfg) (evs : List Ev) (i : Nat) (e : Ev)
+    (h : evs[i]? = some e) : notesAt cfgs evs i = (stepG cfgs (R cfgs evs i) e).2 := by
+  unfold notesAt
+  rw [runG_getElem?, h]
+  rfl
+
+theorem notesAt_none (cfgs : List ModuleCfg) (evs : List Ev) (i : Nat)
+    (h : evs[i]? = none) : notesAt cfgs evs i = [] := by
+  unfold notesAt
+  rw [runG_getElem?, h]
+  rfl
+
+theorem mem_notesAt {cfgs : List ModuleCfg} {evs : List Ev} {i : Nat} {n : Notification}
+    (h : n ∈ notesAt cfgs evs i) :
+    ∃ e, evs[i]? = some e ∧ n ∈ (stepG cfgs (R cfgs evs i) e).2 := by
+  cases he : evs[i]? with
+  | none => rw [notesAt_none cfgs evs i he] at h; cases h
+  | some e => exact ⟨e, rfl, by rw [← notesAt_eq cfgs evs i e he]; exact h⟩
+
+theorem getElem?_some_of_lt {evs : List Ev} {i j : Nat} {e : Ev} (h : evs[j]? = some e)
+    (hij : i ≤ j) : ∃ e', evs[i]? = some e' := by
+  have hj : j < evs.length := by
+    rcases Nat.lt_or_ge j evs.length with h' | h'
+    · exact h'
+    · rw [List.getElem?_eq_none h'] at h; cases h
+  exact ⟨evs[i]'(by omega), List.getElem?_eq_getElem (by omega)⟩
+
+/-! ### The incident invariant -/
+
+/-- either no incident is open, or the record carries the id and start time of an evaluation
+    `k < b` worse than OK, with no OK evaluation in `[k, i)` -/
+def Good (evs : List Ev) (b i : Nat) (g : GroupRec) : Prop :=
+  (g.start = none ∧ g.id = none) ∨
+  ∃ k e, k < b ∧ evs[k]? = some e ∧ e.status > .ok ∧ g.id = some e.freshId ∧
+    g.start = some e.now ∧ NoOk evs k i
+
+theorem good_pre (evs : List Ev) (i : Nat) (g : GroupRec) (e : Ev) (he : evs[i]? = some e)
+    (h : Good evs i i g) : Good evs (i + 1) i (pre g e) := by
+  unfold pre
+  split
+  · rename_i hc
+    refine Or.inr ⟨i, e, Nat.lt_succ_self i, he, hc.2, rfl, rfl, ?_⟩
+    intro k e' h1 h2
+    omega
+  · rcases h with h | ⟨k, e', hk, r⟩
+    · exact Or.inl h
+    · exact Or.inr ⟨k, e', by omega, r⟩
+
+theorem good_step (cfgs : List ModuleCfg) (evs : List Ev) (i : Nat) (g : GroupRec) (e : Ev)
+    (he : evs[i]? = some e) (h : Good evs (i + 1) i (pre g e)) :
+    Good evs (i + 1) (i + 1) (stepG cfgs g e).1 := by
+  by_cases hok : e.status = .ok
+  · obtain ⟨h1, h2⟩ := stepG_id_ok cfgs g e hok
+    exact Or.inl ⟨h2, h1⟩
+  · obtain ⟨h1, h2⟩ := stepG_id_not_ok cfgs g e hok
+    rcases h with ⟨ha, hb⟩ | ⟨k, e', hk, hek, hbad, hid, hst, hno⟩
+    · exact Or.inl ⟨h2.trans ha, h1.trans hb⟩
+    · refine Or.inr ⟨k, e', hk, hek, hbad, h1.trans hid, h2.trans hst, ?_⟩
+      intro k' e'' hk1 hk2 hek'
+      by_cases hlt : k' < i
+      · exact hno k' e'' hk1 hlt hek'
+      · have : k' = i := by omega
+        subst this
+        rw [he] at hek'
+        cases hek'
+        exact hok
+
+theorem good_R (cfgs : List ModuleCfg) (evs : List Ev) (i : Nat) : Good evs i i (R cfgs evs i) := by
+  induction i with
+  | zero => exact Or.inl ⟨rfl, rfl⟩
+  | succ i ih =>
+    cases he : evs[i]? with
+    | none =>
+      show Good evs (i + 1) (i + 1) (recAt cfgs GroupRec.fresh evs (i + 1))
+      rw [recAt_succ_none cfgs _ evs i he]
+      rcases ih with h | ⟨k, e', hk, hek, hbad, hid, hst, hno⟩
+      · exact Or.inl h
+      · refine Or.inr ⟨k, e', by omega, hek, hbad, hid, hst, ?_⟩
+        intro k' e'' hk1 hk2 hek'
+        by_cases hlt : k' < i
+        · exact hno k' e'' hk1 hlt hek'
+        · have : k' = i := by omega
+          subst this
+          rw [he] at hek'
+          cases hek'
+    | some e =>
+      show Good evs (i + 1) (i + 1) (recAt cfgs GroupRec.fresh evs (i + 1))
+      rw [recAt_succ cfgs _ evs i e he]
+      exact good_step cfgs evs i _ e he (good_pre evs i _ e he ih)
+
+theorem good_P (cfgs : List ModuleCfg) (evs : List Ev) (i : Nat) (e : Ev) (he : evs[i]? = some e) :
+    Good evs (i + 1) i (pre (R cfgs evs i) e) :=
+  good_pre evs i _ e he (good_R cfgs evs i)
+
+/-- after an evaluation worse than OK an incident is open -/
+theorem R_succ_start_isSome (cfgs : List ModuleCfg) (evs : List Ev) (i : Nat) (e : Ev)
+    (he : evs[i]? = some e) (hbad : e.status > .ok) : (R cfgs evs (i + 1)).start.isSome := by
+  show (recAt cfgs GroupRec.fresh evs (i + 1)).start.isSome
+  rw [recAt_succ cfgs _ evs i e he, (stepG_id_not_ok cfgs _ e (ne_ok_of_gt_ok hbad)).2]
+  exact pre_start_isSome _ e hbad
+
+/-- after an OK evaluation no incident is open -/
+theorem R_succ_start_none (cfgs : List ModuleCfg) (evs : List Ev) (i : Nat) (e : Ev)
+    (he : evs[i]? = some e) (hok : e.status = .ok) : (R cfgs evs (i + 1)).start = none := by
+  show (recAt cfgs GroupRec.fresh evs (i + 1)).start = none
+  rw [recAt_succ cfgs _ evs i e he]
+  exact (stepG_id_ok cfgs _ e hok).2
+
+/-- inside an incident the id and start time handed to the modules do not change -/
+theorem pre_stable (cfgs : List ModuleCfg) (evs : List Ev) (i : Nat) (ei : Ev)
+    (hei : evs[i]? = some ei) :
+    ∀ (d : Nat) (ej : Ev), AllBad evs i (i + d) → evs[i + d]? = some ej →
+      (pre (R cfgs evs (i + d)) ej).id = (pre (R cfgs evs i) ei).id ∧
+      (pre (R cfgs evs (i + d)) ej).start = (pre (R cfgs evs i) ei).start := by
+  intro d
+  induction d with
+  | zero =>
+    intro ej _ hej
+    rw [Nat.add_zero, hei] at hej
+    cases hej
+    exact ⟨rfl, rfl⟩
+  | succ d ih =>
+    intro ej hbad hej
+    obtain ⟨e', he'⟩ := getElem?_some_of_lt hej (Nat.le_succ (i + d))
+    have hb' : e'.status > .ok := hbad (i + d) e' (by omega) (by omega) he'
+    have hih := ih e' (fun k e h1 h2 h3 => hbad k e h1 (by omega) h3) he'
+    have hsome := R_succ_start_isSome cfgs evs (i + d) e' he' hb'
+    have hR : R cfgs evs (i + d + 1) = (stepG cfgs (R cfgs evs (i + d)) e').1 :=
+      recAt_succ cfgs _ evs (i + d) e' he'
+    have hstep := stepG_id_not_ok cfgs (R cfgs evs (i + d)) e' (ne_ok_of_gt_ok hb')
+    show (pre (R cfgs evs (i + d + 1)) ej).id = _ ∧ (pre (R cfgs evs (i + d + 1)) ej).start = _
+    rw [pre_of_isSome _ ej hsome, hR]
+    exact ⟨hstep.1.trans hih.1, hstep.2.trans hih.2⟩
+
+/-! ### C13 -/
+
+theorem incident_identity (cfgs : List ModuleCfg) (evs : List Ev) (i j : Nat) (hij : i ≤ j)
+    (ei : Ev) (hei : evs[i]? = some ei) (hbi : ei.status > .ok) (hbad : AllBad evs i j)
+    (ni nj : Notification) (hi : ni ∈ notesAt cfgs evs i) (hj : nj ∈ notesAt cfgs evs j) :
+    ni.id = nj.id ∧ ni.start = nj.start ∧ ni.id.isSome ∧ ni.start.isSome := by
+  obtain ⟨d, rfl⟩ := Nat.exists_eq_add_of_le hij
+  rw [notesAt_eq cfgs evs i ei hei] at hi
+  obtain ⟨ej, hej, hj⟩ := mem_notesAt hj
+  obtain ⟨hi1, hi2, _⟩ := stepG_mem cfgs _ ei ni hi
+  obtain ⟨hj1, hj2, _⟩ := stepG_mem cfgs _ ej nj hj
+  obtain ⟨hs1, hs2⟩ := pre_stable cfgs evs i ei hei d ej hbad hej
+  have hst : (pre (R cfgs evs i) ei).start.isSome := pre_start_isSome _ ei hbi
+  have hid : (pre (R cfgs evs i) ei).id.isSome := by
+    rcases good_P cfgs evs i ei hei with ⟨h, _⟩ | ⟨k, e', _, _, _, hid, _⟩
+    · rw [h] at hst; cases hst
+    · rw [hid]; rfl
+  refine ⟨?_, ?_, ?_, ?_⟩
+  · rw [hi1, hj1, hs1]
+  · rw [hi2, hj2, hs2]
+  · rw [hi1]; exact hid
+  · rw [hi2]; exact hst
+
+theorem freshId_inj (evs : List Ev) (hfresh : FreshIds evs) (k1 k2 : Nat) (e1 e2 : Ev)
+    (h1 : evs[k1]? = some e1) (h2 : evs[k2]? = some e2) (h : e1.freshId = e2.freshId) :
+    k1 = k2 := by
+  unfold FreshIds at hfresh
+  have hlen : k1 < (evs.map (·.freshId)).length := by
+    rw [List.length_map]
+    rcases Nat.lt_or_ge k1 evs.length with h' | h'
+    · exact h'
+    · rw [List.getElem?_eq_none h'] at h1; cases h1
+  apply (List.getElem?_inj hlen hfresh).mp
+  rw [List.getElem?_map, List.getElem?_map, h1, h2]
+  simp [h]
+
+theorem incidents_distinct (cfgs : List ModuleCfg) (evs : List Ev) (hfresh : FreshIds evs)
+    (i k j : Nat) (hik : i ≤ k) (hkj : k < j) (ek : Ev) (hek : evs[k]? = some ek) (hok : ek.status = .ok)
+    (ni nj : Notification) (hi : ni ∈ notesAt cfgs evs i) (hj : nj ∈ notesAt cfgs evs j)
+    (a b : Nat) (ha : ni.id = some a) (hb : nj.id = some b) : a ≠ b := by
+  obtain ⟨ei, hei, hi⟩ := mem_notesAt hi
+  obtain ⟨ej, hej, hj⟩ := mem_notesAt hj
+  obtain ⟨hi1, _⟩ := stepG_mem cfgs _ ei ni hi
+  obtain ⟨hj1, _⟩ := stepG_mem cfgs _ ej nj hj
+  rw [hi1] at ha
+  rw [hj1] at hb
+  rcases good_P cfgs evs i ei hei with ⟨_, h⟩ | ⟨k1, e1, hk1, he1, _, hid1, _, _⟩
+  · rw [h] at ha; cases ha
+  rcases good_P cfgs evs j ej hej with ⟨_, h⟩ | ⟨k2, e2, hk2, he2, _, hid2, _, hno2⟩
+  · rw [h] at hb; cases hb
+  rw [hid1] at ha
+  rw [hid2] at hb
+  cases ha
+  cases hb
+  intro hab
+  have hkk := freshId_inj evs hfresh k1 k2 e1 e2 he1 he2 hab
+  subst hkk
+  exact hno2 k ek (by omega) hkj hek hok
+
+theorem exactly_one_close (cfgs : List ModuleCfg) (hn : NamesNodup cfgs) (evs : List Ev) (j : Nat)
+    (ej ep : Ev) (hej : evs[j + 1]? = some ej) (hok : ej.status = .ok)
+    (hep : evs[j]? = some ep) (hbad : ep.status > .ok)
+    (cfg : ModuleCfg) (hc : cfg ∈ cfgs) (hacc : ej.acc cfg.name = true) (hclose : cfg.sendClose = true) :
+    ∃ n, (notesAt cfgs evs (j + 1)).filter (fun n => n.module = cfg.name) = [n] ∧ n.close = true ∧
+      n.status = .ok := by
+  rw [notesAt_eq cfgs evs (j + 1) ej hej, (stepG_module cfgs hn _ ej cfg hc).1, if_pos hacc]
+  have hs := R_succ_start_isSome cfgs evs j ep hep hbad
+  rw [pre_of_ok _ ej hok, hok]
+  obtain ⟨n, h1, h2, h3⟩ := nmL_close cfg (lookupT cfg.name (R cfgs evs (j + 1)).lastNotify) ej.now
+    (R cfgs evs (j + 1)).start (R cfgs evs (j + 1)).id hs hclose
+  refine ⟨n, ?_, h2, h3⟩
+  rw [h1]
+  rfl
+
+theorem no_close_without_incident (cfgs : List ModuleCfg) (evs : List Ev) (j : Nat) (n : Notification)
+    (hn : n ∈ notesAt cfgs evs j) (hclose : n.close = true) :
+    (∃ ej, evs[j]? = some ej ∧ ej.status = .ok ∧
+       ∃ cfg ∈ cfgs, cfg.name = n.module ∧ cfg.sendClose = true ∧ ej.acc cfg.name = true) ∧
+    (∃ i, i < j ∧ (∃ ei, evs[i]? = some ei ∧ ei.status > .ok) ∧ NoOk evs i j) := by
+  obtain ⟨ej, hej, hn⟩ := mem_notesAt hn
+  obtain ⟨_, _, _, cfg, hc, hname, hacc, hcl, _⟩ := stepG_mem cfgs _ ej n hn
+  obtain ⟨hs, hok, hsc⟩ := hcl hclose
+  refine ⟨⟨ej, hej, hok, cfg, hc, hname, hsc, hacc⟩, ?_⟩
+  rw [pre_of_ok _ ej hok] at hs
+  rcases good_R cfgs evs j with ⟨h, _⟩ | ⟨k, e', hk, hek, hbad, _, _, hno⟩
+  · rw [h] at hs; cases hs
+  · exact ⟨k, hk, ⟨e', hek, hbad⟩, hno⟩
+
+/-! ### C14 -/
+
+theorem open_only_at_threshold_and_accepted (cfgs : List ModuleCfg) (evs : List Ev) (j : Nat)
+    (n : Notification) (hn : n ∈ notesAt cfgs evs j) (hopen : n.close = false) :
+    ∃ ej, evs[j]? = some ej ∧ ∃ cfg ∈ cfgs, cfg.name = n.module ∧ ej.acc cfg.name = true ∧
+      cfg.threshold ≤ (ej.status.toNat : Int) ∧ n.status = ej.status := by
+  obtain ⟨ej, hej, hn⟩ := mem_notesAt hn
+  obtain ⟨_, _, hst, cfg, hc, hname, hacc, _, hop⟩ := stepG_mem cfgs _ ej n hn
+  exact ⟨ej, hej, cfg, hc, hname, hacc, hop hopen, hst⟩
+
+section perModule
+variable (cfgs : List ModuleCfg) (hn : NamesNodup cfgs) (cfg : ModuleCfg) (hc : cfg ∈ cfgs)
+include hn hc
+
+/-- an open notification to a module records the time for that module -/
+theorem open_sets (g : GroupRec) (e : Ev) (n : Notification) (hmem : n ∈ (stepG cfgs g e).2)
+    (hm : n.module = cfg.name) (ho : n.close = false) :
+    lookupT cfg.name (stepG cfgs g e).1.lastNotify = some e.now := by
+  obtain ⟨hacc, hnm⟩ := (stepG_module_mem cfgs hn g e cfg hc n).mp ⟨hmem, hm⟩
+  rw [(stepG_module cfgs hn g e cfg hc).2, if_pos hacc]
+  exact ((nmL_some hnm).2.2.2.2.2 ho).2.2.2.2
+
+/-- inside an incident, a recorded time stays or is replaced by the current time -/
+theorem lookup_step_bad (g : GroupRec) (e : Ev) (hs : g.start.isSome) (hbad : e.status > .ok)
+    (t : Int) (hl : lookupT cfg.name g.lastNotify = some t) :
+    lookupT cfg.name (stepG cfgs g e).1.lastNotify = some t ∨
+    lookupT cfg.name (stepG cfgs g e).1.lastNotify = some e.now := by
+  rw [(stepG_module cfgs hn g e cfg hc).2, pre_of_isSome g e hs, hl]
+  split
+  · rcases nmL_cases cfg (some t) e.status e.now g.start g.id with
+      ⟨_, h2, _⟩ | ⟨_, h⟩ | ⟨_, _, _, _, h⟩
+    · exact absurd h2 (ne_ok_of_gt_ok hbad)
+    · rw [h]; exact Or.inl rfl
+    · rw [h]; exact Or.inr rfl
+  · exact Or.inl rfl
+
+/-- an open notification to a module with a recorded time: not send-once, and due -/
+theorem open_requires (g : GroupRec) (e : Ev) (hs : g.start.isSome) (n : Notification)
+    (hmem : n ∈ (stepG cfgs g e).2) (hm : n.module = cfg.name) (ho : n.close = false)
+    (t : Int) (hl : lookupT cfg.name g.lastNotify = some t) :
+    cfg.sendOnce ≠ true ∧ e.now - t > cfg.sendInterval * 1000 := by
+  obtain ⟨_, hnm⟩ := (stepG_module_mem cfgs hn g e cfg hc n).mp ⟨hmem, hm⟩
+  rw [pre_of_isSome g e hs, hl] at hnm
+  obtain ⟨_, _, h3, h4, _⟩ := (nmL_some hnm).2.2.2.2.2 ho
+  exact ⟨fun h => h3 ⟨rfl, h⟩, h4 t rfl⟩
+
+/-- nothing recorded and no open notification sent: still nothing recorded -/
+theorem keep_none (g : GroupRec) (e : Ev) (hbad : e.status > .ok)
+    (hl : lookupT cfg.name (pre g e).lastNotify = none)
+    (hno : ∀ n ∈ (stepG cfgs g e).2, n.module = cfg.name → n.close = true) :
+    lookupT cfg.name (stepG cfgs g e).1.lastNotify = none := by
+  rw [(stepG_module cfgs hn g e cfg hc).2]
+  split
+  · rename_i hacc
+    cases hnm : (nmL cfg (lookupT cfg.name (pre g e).lastNotify) e.status e.now (pre g e).start
+        (pre g e).id).2 with
+    | none => rw [nmL_none hnm, hl]
+    | some n =>
+      obtain ⟨hmem, hm⟩ := (stepG_module_mem cfgs hn g e cfg hc n).mpr ⟨hacc, hnm⟩
+      have hcl := hno n hmem hm
+      have := ((nmL_some hnm).2.2.2.2.1 hcl).2.1
+      exact absurd this (ne_ok_of_gt_ok hbad)
+  · exact hl
+
+/-- nothing recorded, accepted, bad and at threshold: an open notification is sent -/
+theorem announce (g : GroupRec) (e : Ev) (hbad : e.status > .ok)
+    (hl : lookupT cfg.name (pre g e).lastNotify = none) (hacc : e.acc cfg.name = true)
+    (hthr : cfg.threshold ≤ (e.status.toNat : Int)) :
+    ∃ n ∈ (stepG cfgs g e).2, n.module = cfg.name ∧ n.close = false := by
+  obtain ⟨n, h1, h2⟩ := nmL_announce cfg e.status e.now (pre g e).start (pre g e).id
+    (ne_ok_of_gt_ok hbad) hthr
+  rw [← hl] at h1
+  obtain ⟨hmem, hm⟩ := (stepG_module_mem cfgs hn g e cfg hc n).mpr ⟨hacc, h1⟩
+  exact ⟨n, hmem, hm, h2⟩
+
+/-- after an open notification to a module at evaluation `i`, as long as the incident lasts the
+    module's entry holds the time of some evaluation in the incident -/
+theorem incident_entry (evs : List Ev) (i : Nat) (ni : Notification)
+    (hi : ni ∈ notesAt cfgs evs i) (hmi : ni.module = cfg.name) (hoi : ni.close = false) :
+    ∀ d : Nat, AllBad evs i (i + 1 + d) → (∃ e, evs[i + d]? = some e) →
+      ∃ k ek, i ≤ k ∧ k < i + 1 + d ∧ evs[k]? = some ek ∧
+        lookupT cfg.name (R cfgs evs (i + 1 + d)).lastNotify = some ek.now := by
+  obtain ⟨ei, hei, hi⟩ := mem_notesAt hi
+  intro d
+  induction d with
+  | zero =>
+    intro _ _
+    refine ⟨i, ei, Nat.le_refl _, by omega, hei, ?_⟩
+    show lookupT cfg.name (recAt cfgs GroupRec.fresh evs (i + 1)).lastNotify = _
+    rw [recAt_succ cfgs _ evs i ei hei]
+    exact open_sets cfgs hn cfg hc _ ei ni hi hmi hoi
+  | succ d ih =>
+    intro hbad hex
+    obtain ⟨e', he'⟩ := hex
+    have he'' : evs[i + 1 + d]? = some e' := by
+      rw [← he']; congr 1; omega
+    obtain ⟨ep, hep⟩ := getElem?_some_of_lt he' (by omega : i + d ≤ i + (d + 1))
+    have hbp : ep.status > .ok := hbad (i + d) ep (by omega) (by omega) hep
+    have hb' : e'.status > .ok := hbad (i + 1 + d) e' (by omega) (by omega) he''
+    obtain ⟨k, ek, hk1, hk2, hek, hl⟩ :=
+      ih (fun k e h1 h2 h3 => hbad k e h1 (by omega) h3) ⟨ep, hep⟩
+    have hs : (R cfgs evs (i + 1 + d)).start.isSome := by
+      have := R_succ_start_isSome cfgs evs (i + d) ep hep hbp
+      rw [show i + d + 1 = i + 1 + d by omega] at this
+      exact this
+    have hR : R cfgs evs (i + 1 + (d + 1)) = (stepG cfgs (R cfgs evs (i + 1 + d)) e').1 :=
+      recAt_succ cfgs _ evs (i + 1 + d) e' he''
+    rw [hR]
+    rcases lookup_step_bad cfgs hn cfg hc _ e' hs hb' ek.now hl with h | h
+    · exact ⟨k, ek, hk1, by omega, hek, h⟩
+    · exact ⟨i + 1 + d, e', by omega, by omega, he'', h⟩
+
+/-- between an opening evaluation and the first open notification to a module, nothing is recorded
+    for that module -/
+theorem incident_none (evs : List Ev) (i : Nat) (hopens : Opens evs i) :
+    ∀ d : Nat, AllBad evs i (i + d + 1) →
+      (∀ k, i ≤ k → k < i + d → ∀ n ∈ notesAt cfgs evs k, n.module = cfg.name → n.close = true) →
+      ∀ e, evs[i + d]? = some e →
+        lookupT cfg.name (pre (R cfgs evs (i + d)) e).lastNotify = none := by
+  intro d
+  induction d with
+  | zero =>
+    intro hbad _ e he
+    have hs : (R cfgs evs i).start = none := by
+      cases i with
+      | zero => rfl
+      | succ i' =>
+        rcases hopens.2 with h | ⟨e', he', hok⟩
+        · cases h
+        · exact R_succ_start_none cfgs evs i' e' he' hok
+    have hb : e.status > .ok := hbad i e (Nat.le_refl _) (by omega) he
+    rw [Nat.add_zero, pre_of_isNone _ e hs hb]
+    rfl
+  | succ d ih =>
+    intro hbad hnone e he
+    obtain ⟨ep, hep⟩ := getElem?_some_of_lt he (by omega : i + d ≤ i + (d + 1))
+    have hbp : ep.status > .ok := hbad (i + d) ep (by omega) (by omega) hep
+    have hlp := ih (fun k e h1 h2 h3 => hbad k e h1 (by omega) h3)
+      (fun k h1 h2 => hnone k h1 (by omega)) ep hep
+    have hs := R_succ_start_isSome cfgs evs (i + d) ep hep hbp
+    have hR : R cfgs evs (i + d + 1) = (stepG cfgs (R cfgs evs (i + d)) ep).1 :=
+      recAt_succ cfgs _ evs (i + d) ep hep
+    show lookupT cfg.name (pre (R cfgs evs (i + d + 1)) e).lastNotify = none
+    rw [pre_of_isSome _ e hs, hR]
+    apply keep_none cfgs hn cfg hc _ ep hbp hlp
+    have := hnone (i + d) (by omega) (by omega)
+    rw [notesAt_eq cfgs evs (i + d) ep hep] at this
+    exact this
+
+end perModule
+
+theorem rate_limited_within_incident (cfgs : List ModuleCfg) (hn : NamesNodup cfgs) (evs : List Ev)
+    (hmono : TimeMono evs) (i j : Nat) (hij : i < j) (hbad : AllBad evs i (j + 1))
+    (ei ej : Ev) (hei : evs[i]? = some ei) (hej : evs[j]? = some ej)
+    (cfg : ModuleCfg) (hc : cfg ∈ cfgs) (ni nj : Notification)
+    (hi : ni ∈ notesAt cfgs evs i) (hj : nj ∈ notesAt cfgs evs j)
+    (hmi : ni.module = cfg.name) (hmj : nj.module = cfg.name)
+    (hoi : ni.close = false) (hoj : nj.close = false) :
+    ej.now - ei.now > cfg.sendInterval * 1000 := by
+  obtain ⟨d, rfl⟩ : ∃ d, j = i + 1 + d := ⟨j - (i + 1), by omega⟩
+  obtain ⟨ep, hep⟩ := getElem?_some_of_lt hej (by omega : i + d ≤ i + 1 + d)
+  have hbp : ep.status > .ok := hbad (i + d) ep (by omega) (by omega) hep
+  obtain ⟨k, ek, hk1, hk2, hek, hl⟩ := incident_entry cfgs hn cfg hc evs i ni hi hmi hoi d
+    (fun k e h1 h2 h3 => hbad k e h1 (by omega) h3) ⟨ep, hep⟩
+  have hs : (R cfgs evs (i + 1 + d)).start.isSome := by
+    have := R_succ_start_isSome cfgs evs (i + d) ep hep hbp
+    rw [show i + d + 1 = i + 1 + d by omega] at this
+    exact this
+  rw [notesAt_eq cfgs evs (i + 1 + d) ej hej] at hj
+  have h := (open_requires cfgs hn cfg hc _ ej hs nj hj hmj hoj ek.now hl).2
+  have hle : ei.now ≤ ek.now := hmono i k ei ek hk1 hei hek
+  omega
+
+theorem send_once_once_per_incident (cfgs : List ModuleCfg) (hn : NamesNodup cfgs) (evs : List Ev)
+    (i j : Nat) (hij : i < j) (hbad : AllBad evs i (j + 1))
+    (cfg : ModuleCfg) (hc : cfg ∈ cfgs) (honce : cfg.sendOnce = true) (ni nj : Notification)
+    (hi : ni ∈ notesAt cfgs evs i) (hj : nj ∈ notesAt cfgs evs j)
+    (hmi : ni.module = cfg.name) (hmj : nj.module = cfg.name)
+    (hoi : ni.close = false) (hoj : nj.close = false) : False := by
+  obtain ⟨d, rfl⟩ : ∃ d, j = i + 1 + d := ⟨j - (i + 1), by omega⟩
+  obtain ⟨ej, hej, hj⟩ := mem_notesAt hj
+  obtain ⟨ep, hep⟩ := getElem?_some_of_lt hej (by omega : i + d ≤ i + 1 + d)
+  have hbp : ep.status > .ok := hbad (i + d) ep (by omega) (by omega) hep
+  obtain ⟨k, ek, hk1, hk2, hek, hl⟩ := incident_entry cfgs hn cfg hc evs i ni hi hmi hoi d
+    (fun k e h1 h2 h3 => hbad k e h1 (by omega) h3) ⟨ep, hep⟩
+  have hs : (R cfgs evs (i + 1 + d)).start.isSome := by
+    have := R_succ_start_isSome cfgs evs (i + d) ep hep hbp
+    rw [show i + d + 1 = i + 1 + d by omega] at this
+    exact this
+  exact (open_requires cfgs hn cfg hc _ ej hs nj hj hmj hoj ek.now hl).1 honce
+
+theorem every_incident_announced (cfgs : List ModuleCfg) (hn : NamesNodup cfgs) (evs : List Ev)
+    (i j : Nat) (hopens : Opens evs i) (hij : i ≤ j) (hbad : AllBad evs i (j + 1))
+    (ej : Ev) (hej : evs[j]? = some ej) (cfg : ModuleCfg) (hc : cfg ∈ cfgs)
+    (hacc : ej.acc cfg.name = true) (hthr : cfg.threshold ≤ (ej.status.toNat : Int))
+    (hnone : ∀ k, i ≤ k → k < j → ∀ n ∈ notesAt cfgs evs k, n.module = cfg.name → n.close = true) :
+    ∃ n ∈ notesAt cfgs evs j, n.module = cfg.name ∧ n.close = false := by
+  obtain ⟨d, rfl⟩ := Nat.exists_eq_add_of_le hij
+  have hl := incident_none cfgs hn cfg hc evs i hopens d hbad hnone ej hej
+  have hb : ej.status > .ok := hbad (i + d) ej (by omega) (by omega) hej
+  rw [notesAt_eq cfgs evs (i + d) ej hej]
+  exact announce cfgs hn cfg hc _ ej hb hl hacc hthr
+
+/-! ### Several groups interleaved -/
+
+theorem step_some (cfgs : List ModuleCfg) (s : NState) (k : String × String) (e : Ev)
+    (g : GroupRec) (h : lookupG k s = some g) :
+    step cfgs s k e = (setG k (stepG cfgs g e).1 s, (stepG cfgs g e).2) := by
+  simp only [step, h]
+
+theorem step_none (cfgs : List ModuleCfg) (s : NState) (k : String × String) (e : Ev)
+    (h : lookupG k s = none) : step cfgs s k e = (s, []) := by
+  simp only [step, h]
+
+theorem run_cons (cfgs : List ModuleCfg) (s : NState) (k : String × String) (e : Ev) (rest : Hist) :
+    run cfgs s ((k, e) :: rest) = (step cfgs s k e).2 :: run cfgs (step cfgs s k e).1 rest := rfl
+
+theorem run_projection (cfgs : List ModuleCfg) (s : NState) (h : Hist) (k : String × String)
+    (g : GroupRec) (hg : lookupG k s = some g) :
+    project k h (run cfgs s h) = runG cfgs g (eventsOf k h) := by
+  induction h generalizing s g with
+  | nil => rfl
+  | cons ke rest ih =>
+    obtain ⟨k', e⟩ := ke
+    rw [run_cons]
+    by_cases hk : k' = k
+    · subst hk
+      have hev : eventsOf k' ((k', e) :: rest) = e :: eventsOf k' rest := by
+        simp [eventsOf]
+      rw [hev, runG_cons, step_some cfgs s k' e g hg]
+      simp only [project, if_true]
+      rw [ih _ _ (lookupG_setG_self k' _ s)]
+    · have hev : eventsOf k ((k', e) :: rest) = eventsOf k rest := by
+        simp [eventsOf, hk]
+      rw [hev]
+      simp only [project, hk, if_false]
+      cases hl : lookupG k' s with
+      | none =>
+        rw [step_none cfgs s k' e hl]
+        exact ih s g hg
+      | some g' =>
+        rw [step_some cfgs s k' e g' hl]
+        exact ih _ g (by rw [lookupG_setG_ne hk]; exact hg)
 
 end Burrow.Proofs.Notifier
